@@ -142,10 +142,27 @@ def shape_flags(prog):
         if isinstance(x, list):
             return any(has_exit(v) for v in x)
         return False
+    def try_outside_lam(x):
+        if isinstance(x, dict):
+            if x.get("e") in ("lam", "gen"):
+                return False
+            if x.get("e") == "try":
+                return True
+            return any(try_outside_lam(v) for v in x.values())
+        return isinstance(x, list) and any(try_outside_lam(v) for v in x)
+
+    def lam_with_try(x):
+        if isinstance(x, dict):
+            if x.get("e") == "lam" and has_try(x.get("body")):
+                return True
+            return any(lam_with_try(v) for v in x.values())
+        return isinstance(x, list) and any(lam_with_try(v) for v in x)
     for f in prog["top"]:
         walk(f, False, False, False)
     for f in prog["funs"]:
         walk(f["body"], False, False, True)
+        if try_outside_lam(f["body"]) and lam_with_try(f["body"]):
+            flags.add("try-and-closure-try")
         if f.get("fuel"):
             flags.add("recursive-function")
     return sorted(flags)
